@@ -27,16 +27,24 @@ def build(it, env, P, conf, variant, suffix=""):
     return construct(it, env, f"{FD}.FileDataPdu", dict(pdu_conf=conf, params=params))
 
 
-def fd_spec(E, S, crc, large, variant, suffix=""):
+def fd_spec(E, S, crc, large, variant, suffix="", names=None):
+    n = lambda k: (names or {}).get(k, k + suffix)
     body = []
     if variant == "metadata":
-        body += [F("record_cont_state" + suffix, 2), R.len_atom(6, PD.blen("metadata" + suffix)), B("metadata" + suffix)]
+        body += [F(n("record_cont_state"), 2), R.len_atom(6, PD.blen(n("metadata"))), B(n("metadata"))]
     elif variant == "empty metadata":
-        body += [F("record_cont_state" + suffix, 2), K(6, 0)]
-    body += [PD.fss("offset" + suffix, large), B("file_data" + suffix)] + ([CRC()] if crc else [])
+        body += [F(n("record_cont_state"), 2), K(6, 0)]
+    body += [PD.fss(n("offset"), large), B(n("file_data"))] + ([CRC()] if crc else [])
     tail_len = R.spec_len(body)
     hdr = CF.header_spec(E, S, R.len_atom(16, tail_len), pdu_type=1, direction=0, crc=crc, large=large, seg_meta=0 if variant == "no metadata" else 1)
     return hdr + body, tail_len, tail_len + Lin({}, CF.header_len(E, S))
+
+
+SETTER_SEQUENCES = (("metadata", "no metadata"), ("no metadata", "metadata"), ("empty metadata", "metadata"),
+                    # one setter alone: the other one must not be needed to bring the lengths up to date
+                    ("metadata", "metadata", "meta"), ("metadata", "empty metadata", "meta"), ("no metadata", "metadata", "meta"),
+                    ("metadata", "no metadata", "meta"), ("no metadata", "empty metadata", "meta"),
+                    ("metadata", "metadata", "data"), ("no metadata", "no metadata", "data"))
 
 
 def widths(E, S, large, suffix=""):
@@ -101,29 +109,35 @@ def pack_task(ck, task):
 def setter_task(ck, task):
     """documented setters keep layout, flag and lengths in step (also part of C11)"""
     P = Program(ck.repo)
-    (E, S, crc, large), (v0, v1) = task
+    (E, S, crc, large), (v0, v1, *which) = task
+    which = which[0] if which else "both"        # which setters run: both | meta (segment_metadata only) | data (file_data only)
     it = new_interp(P); env = Env()
-    tag = f"{v0} -> {v1} E={E},S={S},crc={crc},large={large}"
+    tag = f"{v0} -> {v1} [{which}] E={E},S={S},crc={crc},large={large}"
     fn = "FileDataPdu.segment_metadata setter"
     try:
         conf = CF.make_conf(it, env, P, E, S, crc=crc, large=large)
         pdu = build(it, env, P, conf, v0)
         call_method(it, env, pdu, "pack")
-        if v1 == "no metadata":
-            new = NONE
-        else:
-            new = construct(it, env, f"{FD}.SegmentMetadata", dict(
-                record_cont_state=CF.esym(P, "record_cont_state_2", f"{FD}.RecordContinuationState"), metadata=sym("metadata_2", ty="bytes")))
-        it.setattr(pdu, "segment_metadata", new, env, None, None)
-        it.setattr(pdu, "file_data", sym("file_data_2", ty="bytes"), env, None, None)
+        if which in ("both", "meta"):
+            if v1 == "no metadata":
+                new = NONE
+            else:
+                new = construct(it, env, f"{FD}.SegmentMetadata", dict(
+                    record_cont_state=CF.esym(P, "record_cont_state_2", f"{FD}.RecordContinuationState"),
+                    metadata=sym("metadata_2", ty="bytes") if v1 == "metadata" else C(b"")))
+            it.setattr(pdu, "segment_metadata", new, env, None, None)
+        if which in ("both", "data"):
+            it.setattr(pdu, "file_data", sym("file_data_2", ty="bytes"), env, None, None)
         p = call_method(it, env, pdu, "pack")
     except Unsupported as e:
         ck.unknown("W-PACK", fn, tag, str(e))
         return
-    spec, tail_len, total = fd_spec(E, S, crc, large, v1, suffix="_2")
-    # offset keeps its original name
-    ren = lambda cells: [F("offset", c.width) if isinstance(c, F) and c.name == "offset_2" else c for c in cells]
-    spec = ren(spec)
+    names = {"offset": "offset"}       # values no setter touched keep their original symbol
+    if which == "meta":
+        names["file_data"] = "file_data"
+    if which == "data":
+        names.update(metadata="metadata", record_cont_state="record_cont_state")
+    spec, tail_len, total = fd_spec(E, S, crc, large, v1, suffix="_2", names=names)
     w = widths(E, S, large)
     R.check_pack_layout(ck, it, env, p, spec, fn, f"pack() after the setters == layout of a fresh PDU with the final values ({tag})", extra_widths=w)
     R.check_lin_equal(ck, read_path(it, env, pdu, "packet_len"), total, fn, f"packet_len after the setters == packed size ({tag})")
@@ -217,7 +231,7 @@ def run(ck):
     ck.assumptions += ["record continuation state is a member of its enum"]
     cases = PD.config_cases(ck.tier)
     run_parallel(ck, "spverif.props.c07", "pack_task", [(c, v) for c in cases for v in VARIANTS])
-    run_parallel(ck, "spverif.props.c07", "setter_task", [(c, vv) for c in cases[:4] for vv in (("metadata", "no metadata"), ("no metadata", "metadata"), ("empty metadata", "metadata"))])
+    run_parallel(ck, "spverif.props.c07", "setter_task", [(c, vv) for c in cases[:4] for vv in SETTER_SEQUENCES])
     run_parallel(ck, "spverif.props.c07", "decode_task", [(i, c, sm) for i, c in enumerate(cases) for sm in (0, 1)])
     for what, mn in (("file data pack analyses", len(cases) * 3), ("file data decode analyses", len(cases) * 2)):
         cnt = ck.analysed.get(what, 0)
